@@ -7,7 +7,7 @@
                                           io.CopyBuffer(LimitReader(opSize)) in [c]-byte reads
       - lrufile.go     Reset + getChunk : GetReadSeeker, Seek(0, End), then per chunk
                                           Seek(chunk*c) + one Read of [c] bytes, io.EOF tolerated
-    Parameters: block size [bs] (Go: 64 KiB), consumer read size [c] (Go: 32 KiB); the hash of
+    Sizes that are constants in Go are arguments: block size [bs] (Go: 64 KiB), consumer read size [c] (Go: 32 KiB); the hash of
     a block is a section variable (Go: weak hash + MD5, through blockValidator.ValidateAsError,
     modelled in Val/VPool.v).
 
